@@ -39,6 +39,32 @@ class H1 {
     public qubit[2] qs;
     public constructor() -> H1 = default;
 }
+class HF {
+    public qubit fq;
+    public constructor() -> HF = default;
+    public function baseX() -> void {
+        x(this.fq);
+    }
+}
+class HFS extends HF {
+    public qubit fq;
+    public constructor() -> HFS {
+        super();
+        return this;
+    }
+    public function subH() -> void {
+        h(this.fq);
+    }
+}
+class HK {
+    public qubit kq;
+    public constructor() -> HK {
+        H1 tmp = new H1();
+        x(tmp.q);
+        destroy tmp;
+        return this;
+    }
+}
 class H1S extends H1 {
     public int tag = 1;
     public constructor() -> H1S {
@@ -223,6 +249,7 @@ def _init_helper_lines():
         "HD.dtor": _line_of(P, "        h(this.dq);"), "HDT.dtor": _line_of(P, "        x(this.dt);"),
         "xthen": _line_of(P, "\n    x(p);", 1) + 1,
         "touchBase": _line_of(P, "        x(sq);"), "touchOwn": _line_of(P, "        h(own);"),
+        "baseX": _line_of(P, "        x(this.fq);"), "subH": _line_of(P, "        h(this.fq);"),
         "HD.dtor.x": _line_of(P, "        x(ds);"),
     })
 
@@ -272,7 +299,7 @@ PROFILES = {
                     misuse=0, alias=0, block=4, measure_reg=2),
 }
 
-NEED = {"H1": 3, "HT": 1, "H2": 4, "HA": 3, "HD": 2, "HG": 1, "H1S": 3, "HP": 3, "HTS": 1, "HDT": 1}     # HD: its own qubit + the one its destructor declares     # qubits owned by an instance
+NEED = {"H1": 3, "HT": 1, "H2": 4, "HA": 3, "HD": 2, "HG": 1, "H1S": 3, "HP": 3, "HTS": 1, "HDT": 1, "HFS": 2, "HK": 4}     # HD: its own qubit + the one its destructor declares     # qubits owned by an instance
 REGFIELD = {"H1": ("qs", 2), "HA": ("ta", 3), "H1S": ("qs", 2)}   # the qubit[] field of a class
 
 ANGLES = [0.5, -0.5, 1.5, 0.25, 3.0, -2.75, 0.125, 6.25, 0.0, 1.0, -1.0, 0.0078125, 100.5,
@@ -332,6 +359,10 @@ class Gen:
                 out.append(("f", name, "tq"))
             elif cls == "HDT":
                 out.append(("f", name, "dt"))
+            elif cls == "HFS":
+                out.append(("f", name, "fq"))          # the subclass's own fq (the variable is HFS-typed)
+            elif cls == "HK":
+                out.append(("f", name, "kq"))
             elif cls == "HA":
                 for i in range(3):
                     out.append(("fe", name, "ta", i))
@@ -356,6 +387,8 @@ class Gen:
             return ("s", q[1], q[2])
         if t == "f":
             return ("o", q[1], q[2])
+        if t == "fb":
+            return ("o", q[1], "base." + q[2])
         if t == "fe":
             return ("o", q[1], q[2], q[3])
         return ("o", q[1], q[2], q[3])
@@ -398,8 +431,8 @@ class Gen:
                             ["HT", "HTS", "HA", "H1", "HG", "HG", "HTS", "HDT"])
         if self.p in ("measure",) and self.r.random() < 0.3:
             cls = self.r.choice(["HDT", "HTS"])
-        if self.p in ("reset", "handles") and self.r.random() < 0.35:
-            cls = self.r.choice(["H1S", "H1S", "HP"])     # qubits inherited from a base class
+        if self.p in ("reset", "handles") and self.r.random() < 0.45:
+            cls = self.r.choice(["H1S", "H1S", "HP", "HFS", "HK"])     # qubits inherited from a base class, ...
         if self.p in ("flags", "flags_recycle") and self.r.random() < 0.4:
             cls = "HD"     # its destructor applies a gate to its qubit: a measured dq makes the death itself a misuse
         elif self.p in ("handles", "reset", "qasm") and self.r.random() < 0.2:
@@ -442,6 +475,8 @@ class Gen:
 
     def stmt_gate(self):
         g = self.r.choice(["h", "x", "y", "z", "rx", "ry", "rz", "cx", "cx", "h", "ry"])
+        # (which fq a base-class method means when the subclass re-declares the field is not documented:
+        # HF.baseX() is never called; the subclass's own accesses must reach its own qubit)
         bits = self.visible("bits")
         if bits and self.r.random() < 0.15 and not getattr(self, "misusing", False):
             # a register element selected by a measured bit: r[b]
@@ -489,6 +524,8 @@ class Gen:
             if other and self.key_of(other[1]) != self.key_of(qs[0]):
                 return dict(k="gate", g=g, qs=[qs[0]], theta=theta, tform="lit", via="direct", angle_via=other[1] if
                             self.key_of(other[1]) != self.key_of(qs[0]) else other[0])
+        if qs[0][0] == "f" and qs[0][2] == "fq" and self.r.random() < 0.5:
+            g, theta, tform, vias = "h", None, None, ["subh"]
         if qs[0] == ("s", "HS", "sq") and g == "x" and self.r.random() < 0.6:
             vias = ["sbase"]      # a base-class static qubit named bare inside a subclass's static method
         if qs[0] == ("s", "HSB", "own") and g == "h" and self.r.random() < 0.6:
@@ -699,7 +736,7 @@ def render_qref(q):
         return "%s[%d + k1 - 1]" % (reg, i)
     if t == "ei":
         return "%s[%s]" % (q[1], q[2])
-    if t in ("f", "s"):
+    if t in ("f", "s", "fb"):
         return "%s.%s" % (q[1], q[2])
     if t == "fe":
         return "%s.%s[%d]" % (q[1], q[2], q[3])
@@ -785,6 +822,10 @@ class Renderer:
                 self.emit(ind, "inner2(%s);" % a, s)
             elif via == "method":
                 self.emit(ind, "u.m%s(%s);" % (g, a), s)
+            elif via == "basex":
+                self.emit(ind, "%s.baseX();" % s["qs"][0][1], s)
+            elif via == "subh":
+                self.emit(ind, "%s.subH();" % s["qs"][0][1], s)
             elif via == "sbase":
                 self.emit(ind, "HSB.touchBase();", s)
             elif via == "sown":
@@ -1238,6 +1279,8 @@ class Model:
             return self.statics["%s.%s" % (q[1], q[2])]
         if t == "f":
             return self.lookup(q[1])[1].q[q[2]]
+        if t == "fb":
+            return self.lookup(q[1])[1].q["base." + q[2]]
         if t == "fe":
             return self.lookup(q[1])[1].q[q[2]][q[3]]
         if t == "ff":
@@ -1666,6 +1709,18 @@ class Model:
             inst.q["tq"] = self.alloc("%s.tq" % name)
         elif cls == "HDT":
             inst.q["dt"] = self.alloc("%s.dt" % name)
+        elif cls == "HFS":
+            # two fields with one name: the base's and the subclass's own, two distinct qubits
+            inst.q["base.fq"] = self.alloc("%s.(HF)fq" % name)
+            inst.q["fq"] = self.alloc("%s.fq" % name)
+        elif cls == "HK":
+            inst.q["kq"] = self.alloc("%s.kq" % name)
+            # its constructor builds, flips and destroys a helper object
+            tmp = self.new_instance("H1", name + ".ctor-tmp")
+            self.expect_sim("x", tmp.q["q"], what=" [HK constructor]")
+            self.state.gate("x", tmp.q["q"], 0.0)
+            self.check_state("x in HK constructor")
+            self.release(tmp, "destroy-in-constructor")
         elif cls == "HA":
             inst.q["ta"] = [self.alloc("%s.ta[%d]" % (name, i)) for i in range(3)]
         elif cls == "HD":
@@ -1706,7 +1761,8 @@ class Model:
             self.state.gate("x", j, 0.0)
             self.check_state("x q%d inside an operand" % j)
         helper = {"direct": None, "func": "f" + g, "funcr": "fcxr", "qfunc": "qh",
-                  "nested": "inner2", "method": "m" + g, "sbase": "touchBase", "sown": "touchOwn"}[via]
+                  "nested": "inner2", "method": "m" + g, "sbase": "touchBase", "sown": "touchOwn",
+                  "basex": "baseX", "subh": "subH"}[via]
         line = s["line"] if helper is None else HELPER_LINE[helper]
         for i in ix:
             self.op_guard(i, line, g)
